@@ -1,7 +1,7 @@
 """C01 - no oversubscription, one server per instance, views agree, spellings."""
 from mc.props import _cellprop
 from mc.props import _masterprop
-from mc.worlds import cellcfg, cellmon, mastercfg
+from mc.worlds import cellcfg, cellmon, mastercfg, mastermon
 
 BUDGET = {'quick': 240, 'thorough': 900}
 
@@ -42,6 +42,7 @@ def _m1():
     remove_server, restore_placement, restarts)."""
     cfg = mastercfg.m1()
     cfg['cellmonitors'] = [cellmon.mon_c01]
+    cfg['monitors'] = [mastermon.mon_c01_zk]
     cfg['events'] = mastercfg.ev(
         ('app+', 'sm'), ('app+', 'id'), ('app+', 'hi'), ('app+', 'on'),
         ('app-', 0), ('prio', 0, 100),
@@ -54,12 +55,46 @@ def _m1():
     return cfg
 
 
+def _m3():
+    """World B with terabyte-sized servers whose declared capacity changes by
+    a few megabytes (relative change < 1e-5): large values, tiny deltas."""
+    cfg = mastercfg.m1()
+    cfg['idgroups'] = {}
+    cfg['servers'] = {
+        's0': {'parent': 'rack:0', 'variants': [
+            {'cap': ['1048576M', '100%', '1048576M']},
+            {'cap': ['1048570M', '100%', '1048576M']},
+            {'cap': ['1048576M', '100%', '1048570M']}]},
+        's1': {'parent': 'rack:1', 'variants': [
+            {'cap': ['524288M', '100%', '1048576M']}]},
+    }
+    cfg['templates'] = {
+        'big': {'memory': '262144M', 'cpu': '10%', 'disk': '262144M',
+                'affinity': 'a'},
+        'half': {'memory': '524288M', 'cpu': '10%', 'disk': '524288M',
+                 'affinity': 'b'},
+    }
+    cfg['max_apps'] = 6
+    cfg['cellmonitors'] = [cellmon.mon_c01]
+    cfg['monitors'] = [mastermon.mon_c01_zk]
+    cfg['allow_nocycle'] = False
+    cfg['events'] = mastercfg.ev(
+        ('app+', 'big'), ('app+', 'half'), ('app-', 0),
+        ('srv', 's0', 1), ('srv', 's0', 2), ('srv', 's0', 0),
+        ('pres-', 's0'), ('pres+', 's0', 1), ('restart',),
+    )
+    return cfg
+
+
 def configs(ctx):
     if ctx.quick:
         return [('K1', _k1(), 4, 1, _cellprop.CellSpec, 2.0),
-                ('M1', _m1(), 3, 0, _masterprop.MasterSpec, 1.0)]
+                ('K2', _k2(), 3, 1, _cellprop.CellSpec, 1.0),
+                ('M1', _m1(), 3, 0, _masterprop.MasterSpec, 1.0),
+                ('M3', _m3(), 6, 0, _masterprop.MasterSpec, 1.0)]
     return [('K1', _k1(), 6, 2), ('K2', _k2(), 6, 1),
-            ('M1', _m1(), 5, 1, _masterprop.MasterSpec)]
+            ('M1', _m1(), 5, 1, _masterprop.MasterSpec),
+            ('M3', _m3(), 9, 0, _masterprop.MasterSpec)]
 
 
 RULE = ('BFS over histories of cell events x {cycle, no cycle}; a transition '
